@@ -112,6 +112,14 @@ pub fn nfa_to_dfa<A: Clone>(nfa: &NFA<A>) -> DFA<DfaStateIdx, A> {
             Vec::with_capacity(range_transitions.len());
 
         for range in range_transitions.into_iter() {
+            // Splitting and subtracting ranges can leave range ends in the surrogate range (e.g.
+            // `_ # '\u{d7ff}'` leaves a range starting at U+D800), which are not valid `char`s.
+            // Clamp the range to valid `char`s, skip it if it only covers surrogates.
+            let (range_start, range_end) = match clamp_to_chars(range.start, range.end) {
+                Some(range) => range,
+                None => continue,
+            };
+
             let mut range_states: Set<NfaStateIdx> = range.value;
 
             for any_next in &any_transitions {
@@ -126,8 +134,8 @@ pub fn nfa_to_dfa<A: Clone>(nfa: &NFA<A>) -> DFA<DfaStateIdx, A> {
             let dfa_state = dfa_state_of_nfa_states(&mut dfa, &mut state_map, closure.clone());
 
             dfa_range_transitions.push(Range {
-                start: range.start,
-                end: range.end,
+                start: range_start,
+                end: range_end,
                 value: dfa_state,
             });
 
@@ -167,6 +175,30 @@ pub fn nfa_to_dfa<A: Clone>(nfa: &NFA<A>) -> DFA<DfaStateIdx, A> {
     }
 
     dfa
+}
+
+/// Shrink an inclusive range of code points so that both ends are valid `char`s, i.e. not in the
+/// surrogate range U+D800..=U+DFFF. Returns `None` if the range only covers surrogates.
+fn clamp_to_chars(start: u32, end: u32) -> Option<(u32, u32)> {
+    const SURROGATES: std::ops::RangeInclusive<u32> = 0xD800..=0xDFFF;
+
+    let start = if SURROGATES.contains(&start) {
+        *SURROGATES.end() + 1
+    } else {
+        start
+    };
+
+    let end = if SURROGATES.contains(&end) {
+        *SURROGATES.start() - 1
+    } else {
+        end
+    };
+
+    if start <= end {
+        Some((start, end))
+    } else {
+        None
+    }
 }
 
 fn dfa_state_of_nfa_states<A>(
